@@ -959,6 +959,15 @@ class Evaluator:
                         holder.fields[t.value.attr] = new
                 fr.effects.append(('setitem', base, k, v))
                 return
+            if isinstance(base, Tup) and isinstance(k, Tup) and all(isinstance(i, sp.Integer) for i in k.items) \
+                    and isinstance(v, Tup) and len(v.items) == len(k.items) and isinstance(t.value, ast.Name) \
+                    and all(-len(base.items) <= int(i) < len(base.items) for i in k.items):
+                # fancy-index assignment a[[i, j]] = [x, y]
+                items = list(base.items)
+                for i, x in zip(k.items, v.items):
+                    items[int(i)] = x
+                env[t.value.id] = Tup(tuple(items), base.kind)
+                return
             if isinstance(base, DictV) and isinstance(k, Const):
                 base.set(k.v, v)
             elif isinstance(t.value, ast.Name):
@@ -1693,6 +1702,8 @@ class Evaluator:
                 return NotImplemented
             if meth == 'transpose':
                 return _transpose(base)
+            if meth == 'astype' and len(args) == 1 and all(is_num(i) and i.is_number for i in base.items):
+                return base            # numbers stay numbers (dtype is not modelled)
             if meth in ('mean', 'sum', 'min', 'max') and not args and not kwargs and base.items \
                     and all(is_num(i) for i in base.items):
                 if meth in ('min', 'max'):
@@ -1753,6 +1764,17 @@ class Evaluator:
                 v_lt_u = BoolT('or', (Cmp('<', v0, u0), BoolT('and', (Cmp('==', v0, u0), Cmp('<', v1, u1)))))
                 u_lt_v = BoolT('or', (Cmp('<', u0, v0), BoolT('and', (Cmp('==', u0, v0), Cmp('<', u1, v1)))))
                 return mk_ite(v_lt_u if short == 'min' else u_lt_v, a[1], a[0])
+            if short == 'arange' and len(a) == 1 and isinstance(a[0], sp.Integer) and 0 <= int(a[0]) <= 64 and not kwargs:
+                return Tup(tuple(sp.Integer(i) for i in range(int(a[0]))), 'array')
+            if short in ('max', 'min') and len(a) == 1 and 'default' in kwargs:
+                its = _iter_items(a[0])
+                if its is not None and not its:
+                    return kwargs['default']          # max((), default=d) is d
+                if its is not None and all(is_num(x) for x in its):
+                    return its[0] if len(its) == 1 else (sp.Max if short == 'max' else sp.Min)(*its)
+            if short in ('max', 'min') and len(a) == 1 and isinstance(a[0], Tup) and len(a[0].items) == 1 \
+                    and is_num(a[0].items[0]):
+                return a[0].items[0]
             if short in ('max', 'min'):
                 items = a
                 if len(a) == 1 and isinstance(a[0], Tup):
